@@ -158,3 +158,48 @@ def h_select(c, n):
     want = [k for k in keys if c.truth_fork(eq(spelled_bytes(c, c.get(k, "client_random")), cr))]
     got = out.value
     c.ensure("exactly_the_matching_lines_in_order", len(got) == len(want) and all(a is b for a, b in zip(got, want)))
+
+
+@harness(["C09", "C18"], "keylog.read_file", functions=[KR + ".read_keylog_from_file"], cases=[("exists",), ("missing",)])
+def h_read_file(c, how):
+    """read_keylog_from_file(path) returns the keys of EVERYTHING that reading the path delivers: the path is opened once for reading
+    and its whole text goes to get_keys_from_string - whatever kind of file it is (regular file, named pipe, process substitution,
+    /dev/stdin): nothing but os.path.exists may be asked of the file system, and what stat() would report about size is not the
+    content (assumed: os.path.getsize returns an arbitrary non-negative number).  A missing file ends the run (documented)."""
+    if c.native:
+        return
+    text = c.opaque("key_log_text")
+    keys = [c.opaque("key")]
+    parsed = []
+    c.summary_override(KR + ".get_keys_from_string", lambda ctx, t: parsed.append(t) or keys)
+    opened = []
+
+    def fileop(m, a, k):
+        if m == "read" and not a:
+            return text
+        if m in ("close", "__enter__", "__exit__"):
+            return None
+        from pyvc.core import Unsupported
+        raise Unsupported("file.%s%r" % (m, tuple(a)))
+
+    def opener(I, path, mode="r", *a, **k):
+        f = c.recorder("file", handler=fileop, path=path, mode=mode)
+        opened.append((path, mode))
+        return f
+    c.lib_model_raw("hook.open", opener)
+    c.lib_model("os.path.exists", lambda p: how == "exists")
+    exits = []
+    c.lib_model("builtins.exit", lambda *a: exits.append(a) or c.raise_in_code("SystemExit"))
+    out = c.call(KR + ".read_keylog_from_file", "keys.log")
+    if how == "missing":
+        c.ensure("missing_file.ends_the_run_without_reading", out.exc == "SystemExit" and not opened and not parsed)
+        return
+    c.ensure("no_raise", out.exc is None, kind="raises")
+    if out.exc is not None:
+        return
+    c.ensure("opened_once_for_reading", len(opened) == 1 and opened[0][0] == "keys.log" and opened[0][1] in ("r", "rt"))
+    c.ensure("whole_text_parsed_and_its_keys_returned", len(parsed) == 1 and parsed[0] is text and out.value is keys)
+    c.cover("read")
+
+
+h_read_file.must_cover = ["read"]
